@@ -507,6 +507,18 @@ impl RuleCV06 {
             .first()
             .cloned();
 
+        // The line break that ends an inline comment is not ours to tidy up if anything
+        // follows the terminator on its line: it would become part of the comment.
+        let followed_on_line = parent_segment
+            .get_raw_segments()
+            .iter()
+            .skip_while(|segment| segment.id() != target_segment.id())
+            .skip(1)
+            .find(|segment| !segment.is_meta() && !segment.is_type(SyntaxKind::Whitespace))
+            .is_some_and(|segment| {
+                !segment.is_type(SyntaxKind::Newline) && !segment.is_type(SyntaxKind::EndOfFile)
+            });
+
         let is_one_line = first_code
             .is_some_and(|segment| Self::is_one_line_statement(parent_segment, segment.clone()));
 
@@ -518,6 +530,21 @@ impl RuleCV06 {
             None,
             None,
         );
+        // Keep that line break (the deletions run from the terminator back to the comment).
+        let whitespace_deletions = if followed_on_line
+            && before_segment
+                .iter()
+                .nth(whitespace_deletions.len())
+                .is_some_and(|segment| segment.is_type(SyntaxKind::InlineComment))
+            && whitespace_deletions
+                .last()
+                .is_some_and(|segment| segment.is_type(SyntaxKind::Newline))
+        {
+            let kept = whitespace_deletions.len() - 1;
+            Segments::from_vec(whitespace_deletions.base[..kept].to_vec(), None)
+        } else {
+            whitespace_deletions
+        };
         SegmentMoveContext {
             anchor_segment,
             is_one_line,
